@@ -129,6 +129,8 @@ class StructModel:
         agg = aggs[0]
         self.inits = {i: t for i, t in enumerate(agg[3])}
         for i, t in self.inits.items():
+            # a parameter may pass through a straight-line validation helper that returns it unchanged
+            t = self.prog.inline(t, depth=2)
             if tag(t) == 'arg':
                 self.param_of[i] = t[1]
         # guards at the block where the aggregate is built
